@@ -12,7 +12,8 @@ Three kinds of cases, all decided inside Coq (Corr/C20.v):
   site  : the effect program of one in-place-writing site of the anchored code, extracted from the CURRENT source
           by the small AST extractor below (fail-closed: anything it cannot classify becomes an alias of every
           parameter).  Coq decides `safe_prog` on the extracted program (spec) and compares it with the program
-          pinned in Model/C20.v (model), so that the per-site theorems of Props/C20.v speak about this source.
+          that translate/gen_c20.py generated from the same tree into Gen/C20.v in this run (model), which
+          Bridge/C20.v proves safe (C20_source_tie).  Nothing is pinned: an edit of the source moves both.
 """
 import ast
 import inspect
@@ -30,8 +31,7 @@ RULE = ('registry of public functions x generated arguments (text numbers with -
         'in-place-writing site.  non-trivial = the call returned without exception and the arguments reach at least '
         'one non-empty buffer (call), the chunk has >= 1 entry (chunk), the site has >= 1 write (site)')
 EXHAUSTIVE = {'quick': False, 'thorough': False}
-TIE = ('effect-program extractor (AST, fail-closed) + correspondence: snapshots compared inside Coq; extracted programs '
-       'compared with the pinned ones inside Coq')
+TIE = 'effect-program translator (Gen/C20.v regenerated every run) + correspondence'
 ASSUMPTIONS = ['writes inside NumPy / npstructures follow the aliasing classes of the extractor table; every class the '
                'extractor relied on is probed at run time with np.shares_memory (kind "probe" cases)',
                'the walker reaches every buffer of an argument through __dict__/__slots__ of bionumpy and npstructures objects']
